@@ -10,8 +10,8 @@ from .. import labelled as LB
 ID = "C03"
 LEVEL = "proof"
 PROP_FILE = "Properties/C03.v"
-PROOF_FILES = ["Proofs/AllAnyProofs.v", "Proofs/UspfsFinal.v", "Proofs/UspfsProofs.v", "Proofs/ThlProofs.v", "Model/Uspfs.v", "Model/Thl.v", "Model/Recon.v", "Model/Entry.v", "Proofs/EntryProofs.v", "Proofs/LabelCostProofs.v"]
-TRUSTED = ["model Model/Uspfs.v of _compute_gain_sets/_compute_lca_sets/_compute_uspfs_entry/_compute_uspfs_table/_decode_uspfs_table/_uspfs (after fix D6), on the Entry (C16) and evaluator (C06) models"]
+PROOF_FILES = ["Gen/UspfsGen.v", "Proofs/UspfsGenProofs.v", "Proofs/UspfsGenLink.v", "Proofs/UspfsGenStage1.v", "Proofs/UspfsGenEntry.v", "Proofs/UspfsGenModelPerm.v", "Proofs/UspfsGenTableExact.v", "Proofs/UspfsGenTableModel.v", "Proofs/UspfsGenDecode.v", "Proofs/UspfsGenCommon.v", "Proofs/UspfsGenStatements.v", "Gen/EvalGen.v", "Proofs/EvalGenProofs.v", "Gen/TableGen.v", "Proofs/TableGenProofs.v", "Gen/EntryGen.v", "Proofs/EntryGenProofs.v", "Proofs/AllAnyProofs.v", "Proofs/UspfsFinal.v", "Proofs/UspfsProofs.v", "Proofs/ThlProofs.v", "Model/Uspfs.v", "Model/Thl.v", "Model/Recon.v", "Model/Entry.v", "Proofs/EntryProofs.v", "Proofs/LabelCostProofs.v"]
+TRUSTED = ["translator translator/pyfun.py (eighth extension) + the type tables in translator/uspfs_gen.py: compute/unordered_super_reconciliation.py (_compute_gain_sets, _compute_lca_sets, _make_event_combinator, _compute_uspfs_entry, _compute_uspfs_table, _decode_uspfs_table, _uspfs, usreconcile_base_uspfs, usreconcile_extended_uspfs; binary inputs: binarize() = the input itself, label_internal() a no-op) is translated into Gen/UspfsGen.v on every run and proved equal to Model/Uspfs.v (object nodes = identifiers, species = root paths, species LCA structure = the path operations, object-tree LCA structure = an opaque value assumed to return LCAs (C17), sets = duplicate-free lists whose iteration orders are parameters the theorems quantify over, sort_synteny = a parameter assumed to sort)", "model Model/Uspfs.v of _compute_gain_sets/_compute_lca_sets/_compute_uspfs_entry/_compute_uspfs_table/_decode_uspfs_table/_uspfs (after fix D6), on the Entry (C16) and evaluator (C06) models"]
 ASSUMES = ["binary trees", "cost vectors with spe + 2*sloss <= dup + 2*floss for the optimality clauses (F-COHERENCE)"]
 RULE = ("inputs = (species shape, object shape, leaf species, unordered leaf syntenies over <=4 families, coherent cost vector incl. sloss=0); "
         "non-trivial = at least one family gained at an internal node below the root or an optimal solution with a charged lossy edge / duplication / transfer")
@@ -257,14 +257,21 @@ def extra(ctx):
 
 TECHNIQUE = ("Coq proof: gain/LCA sets characterised, refinement of the faithful table to a clean recurrence over (species, kind), optimiser charge = evaluator charge inside the region, "
              "optimality among canonical labellings, and canonicalisation lemma (any valid labelling can be made canonical at no greater cost) giving the optimum over ALL labellings; "
-             "model tied to the code by table-level correspondence")
+             "model tied to the code twice: the solver source is translated into Gen/UspfsGen.v on every run and proved equal to the model (UspfsGen*.v: gain and LCA sets, one cell, the whole table, decoder, both entry points), and by table-level correspondence")
 OPEN_GOALS: list = []
 LEVEL_TEXT = ("Machine-checked for all binary inputs and cost vectors in the region (the proofs need only spe + sloss <= dup + 2*floss, 0 <= floss, 0 <= sloss): the cost returned by SuperDTL is the minimum "
               "over all valid species mappings and ALL family-set labellings in which each family is gained once at the LCA of its carriers; every returned solution is valid and attains it; "
               "the base solver attains the minimum on the LCA mapping; ALL = exactly the optimal canonical solutions, ANY exactly one. "
               "The model is compared with the code on gain/LCA sets, every table value, ALL sets and ANY members; a brute-force sample over every labelling runs on every check.")
-LEVEL_NOTE = ("Trusted: Coq kernel; hand-written model (correspondence = differential testing). No axioms. Theorems are about the code after fix D6. "
+LEVEL_NOTE = ("Trusted: Coq kernel; the translator (pyfun.py + uspfs_gen.py) that regenerates Gen/UspfsGen.v from the source; hand-written model (proved equal to the generated functions, and correspondence = differential testing). No axioms. Theorems are about the code after fix D6. "
               "Known finding F-COHERENCE outside the region (witness replayed).")
+
+
+def pre_build(ctx):
+    from translator import uspfs_gen
+    from .. import core
+    changed = uspfs_gen.regenerate(core.REPO)
+    ctx.notes.append("Gen/UspfsGen.v " + ("regenerated from compute/unordered_super_reconciliation.py (content changed)" if changed else "regenerated: unchanged"))
 
 
 def known_signature(f, kf):
